@@ -1374,6 +1374,1125 @@ fn exec_key(case: &Value) -> Value {
 }
 
 // =================================================================================================
+// the C API (COVERAGE.md round 2, rows 1 and 3): own declarations of the `extern "C"` entry points used below
+
+#[allow(dead_code)]
+mod capi {
+    use aries_askar as _;
+    use once_cell::sync::Lazy;
+    use std::collections::HashMap;
+    use std::os::raw::{c_char, c_void};
+    use std::sync::atomic::{AtomicI64, Ordering};
+    use std::sync::{Condvar, Mutex};
+    use std::time::{Duration, Instant};
+
+    #[repr(C)]
+    #[derive(Clone, Copy, Debug, PartialEq, Eq)]
+    pub struct H(pub usize);
+    #[repr(C)]
+    #[derive(Clone, Copy, Debug, PartialEq, Eq)]
+    pub struct P(pub *const u8);
+    #[repr(C)]
+    #[derive(Clone, Copy)]
+    pub struct ByteBuf {
+        pub len: i64,
+        pub data: *const u8,
+    }
+    #[repr(C)]
+    #[derive(Clone, Copy)]
+    pub struct SecretBuf {
+        pub len: i64,
+        pub data: *mut u8,
+    }
+    #[repr(C)]
+    #[derive(Clone, Copy)]
+    pub struct EncryptedBuf {
+        pub buffer: SecretBuf,
+        pub tag_pos: i64,
+        pub nonce_pos: i64,
+    }
+    pub type Code = i64;
+    pub type LogCb = extern "C" fn(context: *const c_void, level: i32, target: *const c_char, message: *const c_char, module_path: *const c_char, file: *const c_char, line: i32);
+    pub type EnabledCb = extern "C" fn(context: *const c_void, level: i32) -> i8;
+    pub type FlushCb = extern "C" fn(context: *const c_void);
+    pub type CbUnit = Option<extern "C" fn(i64, Code)>;
+    pub type CbHandle = Option<extern "C" fn(i64, Code, H)>;
+    pub type CbPtr = Option<extern "C" fn(i64, Code, P)>;
+    pub type CbI64 = Option<extern "C" fn(i64, Code, i64)>;
+    pub type CbI8 = Option<extern "C" fn(i64, Code, i8)>;
+    pub type CbStr = Option<extern "C" fn(i64, Code, *const c_char)>;
+
+    extern "C" {
+        pub fn askar_get_current_error(out: *mut *const c_char) -> Code;
+        pub fn askar_string_free(s: *mut c_char);
+        pub fn askar_buffer_free(b: SecretBuf);
+        pub fn askar_set_custom_logger(context: *const c_void, log: LogCb, enabled: Option<EnabledCb>, flush: Option<FlushCb>, max_level: i32) -> Code;
+        pub fn askar_store_provision(uri: *const c_char, method: *const c_char, pass_key: *const c_char, profile: *const c_char, recreate: i8, cb: CbHandle, cb_id: i64) -> Code;
+        pub fn askar_store_open(uri: *const c_char, method: *const c_char, pass_key: *const c_char, profile: *const c_char, cb: CbHandle, cb_id: i64) -> Code;
+        pub fn askar_store_remove(uri: *const c_char, cb: CbI8, cb_id: i64) -> Code;
+        pub fn askar_store_close(h: H, cb: CbUnit, cb_id: i64) -> Code;
+        pub fn askar_store_create_profile(h: H, profile: *const c_char, cb: CbStr, cb_id: i64) -> Code;
+        pub fn askar_store_rekey(h: H, method: *const c_char, pass_key: *const c_char, cb: CbUnit, cb_id: i64) -> Code;
+        pub fn askar_scan_start(h: H, profile: *const c_char, category: *const c_char, tag_filter: *const c_char, offset: i64, limit: i64, order_by: *const c_char, descending: i8, cb: CbHandle, cb_id: i64) -> Code;
+        pub fn askar_scan_next(h: H, cb: CbPtr, cb_id: i64) -> Code;
+        pub fn askar_scan_free(h: H) -> Code;
+        pub fn askar_session_start(h: H, profile: *const c_char, as_transaction: i8, cb: CbHandle, cb_id: i64) -> Code;
+        pub fn askar_session_close(h: H, commit: i8, cb: CbUnit, cb_id: i64) -> Code;
+        pub fn askar_session_count(h: H, category: *const c_char, tag_filter: *const c_char, cb: CbI64, cb_id: i64) -> Code;
+        pub fn askar_session_fetch(h: H, category: *const c_char, name: *const c_char, for_update: i8, cb: CbPtr, cb_id: i64) -> Code;
+        pub fn askar_session_fetch_all(h: H, category: *const c_char, tag_filter: *const c_char, limit: i64, order_by: *const c_char, descending: i8, for_update: i8, cb: CbPtr, cb_id: i64) -> Code;
+        pub fn askar_session_remove_all(h: H, category: *const c_char, tag_filter: *const c_char, cb: CbI64, cb_id: i64) -> Code;
+        pub fn askar_session_update(h: H, operation: i8, category: *const c_char, name: *const c_char, value: ByteBuf, tags: *const c_char, expiry_ms: i64, cb: CbUnit, cb_id: i64) -> Code;
+        pub fn askar_session_insert_key(h: H, key: P, name: *const c_char, metadata: *const c_char, tags: *const c_char, expiry_ms: i64, cb: CbUnit, cb_id: i64) -> Code;
+        pub fn askar_session_fetch_key(h: H, name: *const c_char, for_update: i8, cb: CbPtr, cb_id: i64) -> Code;
+        pub fn askar_session_fetch_all_keys(h: H, alg: *const c_char, thumbprint: *const c_char, tag_filter: *const c_char, limit: i64, for_update: i8, cb: CbPtr, cb_id: i64) -> Code;
+        pub fn askar_session_remove_key(h: H, name: *const c_char, cb: CbUnit, cb_id: i64) -> Code;
+        pub fn askar_entry_list_count(l: P, count: *mut i32) -> Code;
+        pub fn askar_entry_list_get_name(l: P, index: i32, out: *mut *const c_char) -> Code;
+        pub fn askar_entry_list_get_value(l: P, index: i32, out: *mut SecretBuf) -> Code;
+        pub fn askar_entry_list_get_tags(l: P, index: i32, out: *mut *const c_char) -> Code;
+        pub fn askar_entry_list_free(l: P);
+        pub fn askar_key_entry_list_count(l: P, count: *mut i32) -> Code;
+        pub fn askar_key_entry_list_load_local(l: P, index: i32, out: *mut P) -> Code;
+        pub fn askar_key_entry_list_free(l: P);
+        pub fn askar_key_free(k: P);
+        pub fn askar_key_from_jwk(jwk: ByteBuf, out: *mut P) -> Code;
+        pub fn askar_key_from_public_bytes(alg: *const c_char, public: ByteBuf, out: *mut P) -> Code;
+        pub fn askar_key_from_secret_bytes(alg: *const c_char, secret: ByteBuf, out: *mut P) -> Code;
+        pub fn askar_key_get_public_bytes(k: P, out: *mut SecretBuf) -> Code;
+        pub fn askar_key_get_secret_bytes(k: P, out: *mut SecretBuf) -> Code;
+        pub fn askar_key_get_jwk_secret(k: P, out: *mut SecretBuf) -> Code;
+        pub fn askar_key_sign_message(k: P, msg: ByteBuf, sig_type: *const c_char, out: *mut SecretBuf) -> Code;
+        pub fn askar_key_from_key_exchange(alg: *const c_char, sk: P, pk: P, out: *mut P) -> Code;
+        pub fn askar_key_aead_encrypt(k: P, message: ByteBuf, nonce: ByteBuf, aad: ByteBuf, out: *mut EncryptedBuf) -> Code;
+        pub fn askar_key_aead_decrypt(k: P, ciphertext: ByteBuf, nonce: ByteBuf, tag: ByteBuf, aad: ByteBuf, out: *mut SecretBuf) -> Code;
+        pub fn askar_key_wrap_key(k: P, other: P, nonce: ByteBuf, out: *mut EncryptedBuf) -> Code;
+        pub fn askar_key_unwrap_key(k: P, alg: *const c_char, ciphertext: ByteBuf, nonce: ByteBuf, tag: ByteBuf, out: *mut P) -> Code;
+        pub fn askar_key_crypto_box_seal(k: P, message: ByteBuf, out: *mut SecretBuf) -> Code;
+        pub fn askar_key_crypto_box_seal_open(k: P, ciphertext: ByteBuf, out: *mut SecretBuf) -> Code;
+    }
+
+    pub fn code_name(c: Code) -> &'static str {
+        match c {
+            0 => "Success", 1 => "Backend", 2 => "Busy", 3 => "Duplicate", 4 => "Encryption", 5 => "Input", 6 => "NotFound", 7 => "Unexpected", 8 => "Unsupported", 100 => "Custom", _ => "Code(?)",
+        }
+    }
+
+    /// one recorded callback invocation: (code, handle / pointer / integer result, string result)
+    pub type CbVal = (Code, usize, Option<String>);
+    static CALLS: Lazy<(Mutex<HashMap<i64, CbVal>>, Condvar)> = Lazy::new(|| (Mutex::new(HashMap::new()), Condvar::new()));
+    static NEXT_CB: AtomicI64 = AtomicI64::new(0x20_0000);
+    pub fn new_cb_id() -> i64 {
+        NEXT_CB.fetch_add(1, Ordering::SeqCst)
+    }
+    fn record(id: i64, v: CbVal) {
+        let (m, cv) = &*CALLS;
+        m.lock().unwrap_or_else(|p| p.into_inner()).insert(id, v);
+        cv.notify_all();
+    }
+    pub extern "C" fn cb_unit(id: i64, c: Code) { record(id, (c, 0, None)) }
+    pub extern "C" fn cb_handle(id: i64, c: Code, h: H) { record(id, (c, h.0, None)) }
+    pub extern "C" fn cb_ptr(id: i64, c: Code, p: P) { record(id, (c, p.0 as usize, None)) }
+    pub extern "C" fn cb_i64(id: i64, c: Code, n: i64) { record(id, (c, n as usize, None)) }
+    pub extern "C" fn cb_i8(id: i64, c: Code, n: i8) { record(id, (c, n as usize, None)) }
+    pub extern "C" fn cb_str(id: i64, c: Code, s: *const c_char) {
+        let v = take_str(s);
+        record(id, (c, 0, v))
+    }
+    pub fn wait_cb(id: i64) -> Option<CbVal> {
+        let (m, cv) = &*CALLS;
+        let deadline = Instant::now() + Duration::from_secs(60);
+        let mut g = m.lock().unwrap_or_else(|p| p.into_inner());
+        loop {
+            if let Some(v) = g.remove(&id) {
+                return Some(v);
+            }
+            let now = Instant::now();
+            if now >= deadline {
+                return None;
+            }
+            g = cv.wait_timeout(g, deadline - now).unwrap_or_else(|p| p.into_inner()).0;
+        }
+    }
+    /// `askar_get_current_error` as text (clears the slot)
+    pub fn current_error() -> String {
+        let mut p: *const c_char = std::ptr::null();
+        unsafe { askar_get_current_error(&mut p) };
+        take_str(p).unwrap_or_default()
+    }
+    pub fn take_str(p: *const c_char) -> Option<String> {
+        if p.is_null() {
+            return None;
+        }
+        let s = unsafe { std::ffi::CStr::from_ptr(p) }.to_string_lossy().to_string();
+        unsafe { askar_string_free(p as *mut c_char) };
+        Some(s)
+    }
+    pub fn bb(s: &[u8]) -> ByteBuf {
+        ByteBuf { len: s.len() as i64, data: if s.is_empty() { std::ptr::null() } else { s.as_ptr() } }
+    }
+    pub const NOBUF: SecretBuf = SecretBuf { len: 0, data: std::ptr::null_mut() };
+    pub const NOENC: EncryptedBuf = EncryptedBuf { buffer: NOBUF, tag_pos: 0, nonce_pos: 0 };
+    pub const NOKEY: P = P(std::ptr::null());
+    /// NUL-terminated copy of a string argument (`None` = NULL)
+    pub struct CS(Option<std::ffi::CString>);
+    impl CS {
+        pub fn new(s: &str) -> CS { CS(std::ffi::CString::new(s.replace('\0', "")).ok()) }
+        pub fn null() -> CS { CS(None) }
+        pub fn p(&self) -> *const c_char { self.0.as_ref().map_or(std::ptr::null(), |c| c.as_ptr()) }
+    }
+}
+
+/// `{}`, `{:?}`, `{:#?}` of an error value and of every error on its `source()` chain
+fn err_shown(e: &(dyn std::error::Error + 'static)) -> (Vec<Shown>, usize) {
+    let mut v = vec![Shown { what: "display", text: format!("{}", e) }, Shown { what: "debug", text: format!("{:?}", e) }, Shown { what: "debug-alt", text: format!("{:#?}", e) }];
+    let mut cur = e.source();
+    let mut depth = 0usize;
+    while let Some(s) = cur {
+        v.push(Shown { what: "source-display", text: format!("{}", s) });
+        v.push(Shown { what: "source-debug", text: format!("{:?}", s) });
+        v.push(Shown { what: "source-debug", text: format!("{:#?}", s) });
+        depth += 1;
+        if depth >= 16 {
+            break;
+        }
+        cur = s.source();
+    }
+    (v, depth)
+}
+
+/// all renderings of a returned error as one text (for the log / C API campaigns, where records are plain lines)
+fn err_line(e: &(dyn std::error::Error + 'static)) -> String {
+    let (sh, depth) = err_shown(e);
+    let mut s = format!("RETURNED-ERROR chain={}", depth);
+    for x in sh {
+        s.push_str(" / ");
+        s.push_str(&x.text);
+    }
+    s
+}
+
+// =================================================================================================
+// Part A through the C API: c20:ffi — secret material fetched into `SecretBuffer` / `EncryptedBuffer`, released with
+// `askar_buffer_free` under the instrumented allocator (`src/ffi/secret.rs`)
+
+struct FfiRun {
+    feat: Map<String, Value>,
+    oracle: Vec<Value>,
+    bufs: Vec<Value>,
+    whats: Vec<Value>,
+    texts: Vec<String>, // `askar_get_current_error` JSON after failing calls
+    dirty: u64,
+    subject: String,
+}
+
+impl FfiRun {
+    /// accounts for the allocator events of one tracked C API call: no released block may hold a needle
+    fn settle(&mut self, step: &str) -> Vec<Ev> {
+        let evs = events_take();
+        for ev in &evs {
+            match ev.kind {
+                0 => feat_inc(&mut self.feat, "alloc"),
+                1 => feat_inc(&mut self.feat, "free"),
+                _ => feat_inc(&mut self.feat, "realloc"),
+            }
+            if ev.kind != 0 && ev.hit.is_some() {
+                self.dirty += 1;
+                let sig = format!("ffi:{}:{}:{}-block-holds-secret", self.subject, step, if ev.kind == 1 { "freed" } else { "realloc" });
+                if !self.oracle.iter().any(|o| o["sig"] == sig) {
+                    self.oracle.push(json!({"sig": sig, "block_size": ev.size, "needle": ev.hit}));
+                }
+            }
+        }
+        evs
+    }
+
+    /// the caller's side of a `SecretBuffer`: look at it, then `askar_buffer_free` with the block registered by address.
+    /// `expect`: the bytes the buffer must hold (None = unknown: e.g. ciphertext, derived key).
+    fn release(&mut self, what: &str, b: capi::SecretBuf, expect: Option<&[u8]>) -> W {
+        let n = if b.len > 0 { b.len as usize } else { 0 };
+        let seen = if b.data.is_null() || n == 0 { W(vec![]) } else { W::copy(unsafe { std::slice::from_raw_parts(b.data, n) }) };
+        if b.len < 0 || (b.data.is_null() && b.len != 0) {
+            self.oracle.push(json!({"sig": format!("ffi:{}:{}:malformed-buffer", self.subject, what), "len": b.len, "null": b.data.is_null()}));
+        }
+        let eq = expect.map(|e| e == &seen[..]);
+        if eq == Some(false) {
+            self.oracle.push(json!({"sig": format!("ffi:{}:{}:contents-differ", self.subject, what), "len": n, "expected_len": expect.map(|e| e.len())}));
+        }
+        LIVE.with(|l| {
+            let mut l = l.borrow_mut();
+            l.clear();
+            if n > 0 && !b.data.is_null() {
+                l.push(b.data as usize);
+            }
+        });
+        tracked(|| unsafe { capi::askar_buffer_free(b) });
+        let evs = self.settle(&format!("{}:buffer_free", what));
+        let mut freed: Option<usize> = None;
+        let mut nonzero = 0usize;
+        for ev in &evs {
+            if ev.kind != 0 && ev.live {
+                freed = Some(ev.size);
+                nonzero = ev.nonzero;
+                feat_inc(&mut self.feat, "free:ffi-buffer-block");
+                if ev.kind == 2 {
+                    self.oracle.push(json!({"sig": format!("ffi:{}:{}:buffer-block-reallocated", self.subject, what), "block_size": ev.size}));
+                }
+                if ev.nonzero > 0 {
+                    self.dirty += 1;
+                    self.oracle.push(json!({"sig": format!("ffi:{}:{}:freed-block-not-zeroed", self.subject, what), "block_size": ev.size, "nonzero_bytes": ev.nonzero}));
+                }
+            }
+        }
+        if n > 0 && freed.is_none() {
+            self.oracle.push(json!({"sig": format!("ffi:{}:{}:buffer-block-not-released", self.subject, what), "len": n}));
+        }
+        if freed.map_or(false, |s| s != n) {
+            // `Vec::from_raw_parts(data, len, len)`: the layout handed back must be the allocated one
+            self.oracle.push(json!({"sig": format!("ffi:{}:{}:released-size-differs-from-len", self.subject, what), "len": n, "block_size": freed}));
+        }
+        self.bufs.push(json!({"len": n, "freed": freed, "nonzero": nonzero}));
+        self.whats.push(json!([what, eq]));
+        seen
+    }
+
+    /// return code of a synchronous call; a failure is looked up with `askar_get_current_error`
+    fn code(&mut self, step: &str, c: capi::Code, expect_ok: bool) -> bool {
+        if c != 0 {
+            self.texts.push(format!("{} -> {}", step, capi::current_error()));
+            feat_inc(&mut self.feat, "ffi-error-json");
+        }
+        if (c == 0) != expect_ok {
+            self.oracle.push(json!({"sig": format!("ffi:{}:{}:{}", self.subject, step, if expect_ok { "unexpected-error" } else { "missing-error" }), "code": capi::code_name(c)}));
+        }
+        c == 0
+    }
+}
+
+fn ffi_key(run: &mut FfiRun, step: &str, alg: &str, secret: &[u8]) -> capi::P {
+    let a = capi::CS::new(alg);
+    let mut k = capi::NOKEY;
+    let c = tracked(|| unsafe { capi::askar_key_from_secret_bytes(a.p(), capi::bb(secret), &mut k) });
+    run.settle(step);
+    run.code(step, c, true);
+    k
+}
+fn ffi_key_free(run: &mut FfiRun, step: &str, k: capi::P) {
+    if !k.0.is_null() {
+        tracked(|| unsafe { capi::askar_key_free(k) });
+        run.settle(step);
+    }
+}
+
+/// an in-memory store through the C API holding one record; returns (store, session)
+fn ffi_wait(run: &mut FfiRun, step: &str, c: capi::Code, id: i64) -> Option<capi::CbVal> {
+    if c != 0 {
+        run.code(step, c, true);
+        return None;
+    }
+    match capi::wait_cb(id) {
+        Some(v) => {
+            if v.0 != 0 {
+                run.code(step, v.0, true);
+                None
+            } else {
+                Some(v)
+            }
+        }
+        None => {
+            run.oracle.push(json!({"sig": format!("ffi:{}:{}:no-callback", run.subject, step)}));
+            None
+        }
+    }
+}
+
+fn exec_ffi(case: &Value) -> Value {
+    use capi::*;
+    let sub = case["sub"].as_str().unwrap_or("").to_string();
+    let seed = case["seed"].as_u64().unwrap_or(0);
+    let n = us(case, "n");
+    let (head, arg) = sub.split_once(':').unwrap_or((&sub, ""));
+    let mut run = FfiRun { feat: Map::new(), oracle: vec![], bufs: vec![], whats: vec![], texts: vec![], dirty: 0, subject: sub.clone() };
+    feat_inc(&mut run.feat, &format!("ffi:{}", head));
+    if !allocator_installed() {
+        run.oracle.push(json!({"sig": "c20:allocator-not-installed"}));
+    }
+    events_reset();
+    let mut secrets: Vec<(String, Vec<u8>)> = vec![];
+    let msg = pat(seed as usize % 128, n);
+    match head {
+        "secret_bytes" | "jwk_secret" | "public_bytes" | "sign" => {
+            let s = W::copy(&key_secret(seed, arg));
+            needles_set(key_needles(&s));
+            secrets.push(("key material".into(), s.to_vec()));
+            let k = ffi_key(&mut run, "from_secret_bytes", arg, &s);
+            let mut b = NOBUF;
+            match head {
+                "secret_bytes" => {
+                    let c = tracked(|| unsafe { askar_key_get_secret_bytes(k, &mut b) });
+                    run.settle("get_secret_bytes");
+                    if run.code("get_secret_bytes", c, true) {
+                        run.release("secret_bytes", b, Some(&s));
+                    }
+                }
+                "jwk_secret" => {
+                    let c = tracked(|| unsafe { askar_key_get_jwk_secret(k, &mut b) });
+                    run.settle("get_jwk_secret");
+                    if run.code("get_jwk_secret", c, true) {
+                        // the needle for the text form: the base64url of the secret as it stands in the JWK
+                        let enc = b64(&s, true);
+                        let inner = enc.as_bytes()[..enc.len().min(16)].to_vec();
+                        let mut nd = key_needles(&s);
+                        nd.push(inner);
+                        needles_set(nd);
+                        let seen = run.release("jwk_secret", b, None);
+                        if String::from_utf8_lossy(&seen).contains(&enc) {
+                            feat_inc(&mut run.feat, "jwk:secret-member-seen");
+                        }
+                    }
+                }
+                "public_bytes" => {
+                    let c = tracked(|| unsafe { askar_key_get_public_bytes(k, &mut b) });
+                    run.settle("get_public_bytes");
+                    // symmetric keys have no public part: an error (looked up as JSON) and no buffer
+                    let sym = !matches!(arg, "ed25519" | "x25519" | "k256" | "p256" | "p384" | "bls12381g1" | "bls12381g2" | "bls12381g1g2");
+                    if run.code("get_public_bytes", c, !sym) {
+                        run.release("public_bytes", b, None);
+                    }
+                }
+                _ => {
+                    let c = tracked(|| unsafe { askar_key_sign_message(k, bb(&msg), std::ptr::null(), &mut b) });
+                    run.settle("sign_message");
+                    let signs = matches!(arg, "ed25519" | "k256" | "p256" | "p384");
+                    if run.code("sign_message", c, signs) {
+                        run.release("signature", b, None);
+                    }
+                }
+            }
+            ffi_key_free(&mut run, "key_free", k);
+        }
+        "aead" => {
+            // arg: algorithm; message of n pattern bytes; the ciphertext comes back as an EncryptedBuffer, the plaintext as a SecretBuffer
+            let s = W::copy(&key_secret(seed, arg));
+            let mut nd = key_needles(&s);
+            if n >= 16 {
+                nd.push(msg[..16].to_vec());
+                nd.push(msg[n - 16..].to_vec());
+            }
+            needles_set(nd);
+            secrets.push(("key material".into(), s.to_vec()));
+            secrets.push(("plaintext".into(), msg.to_vec()));
+            let k = ffi_key(&mut run, "from_secret_bytes", arg, &s);
+            let nonce_len = match arg { "xc20p" => 24, "a128kw" | "a256kw" => 0, "a128cbchs256" | "a256cbchs512" => 16, _ => 12 };
+            let nonce = W::copy(&secret_bytes(seed, "nonce", nonce_len));
+            let aad: &[u8] = if arg.ends_with("kw") { b"" } else { b"c20-aad" };
+            let mut enc = NOENC;
+            let c = tracked(|| unsafe { askar_key_aead_encrypt(k, bb(&msg), bb(&nonce), bb(aad), &mut enc) });
+            run.settle("aead_encrypt");
+            if run.code("aead_encrypt", c, true) {
+                // buffer = ciphertext ‖ tag ‖ nonce
+                let full = run.release("encrypted", enc.buffer, None);
+                let nonce_pos = (enc.nonce_pos.max(0) as usize).min(full.len());
+                let tag_pos = (enc.tag_pos.max(0) as usize).min(nonce_pos);
+                let ct_all = W::copy(&full[..nonce_pos]);
+                let (ct, tag) = ct_all.split_at(tag_pos);
+                let mut dec = NOBUF;
+                let c = tracked(|| unsafe { askar_key_aead_decrypt(k, bb(ct), bb(&nonce), bb(tag), bb(aad), &mut dec) });
+                run.settle("aead_decrypt");
+                if run.code("aead_decrypt", c, true) {
+                    run.release("plaintext", dec, Some(&msg));
+                }
+                // a failing decryption (last byte flipped): an error whose JSON is looked up, and no buffer
+                if !ct_all.is_empty() {
+                    let mut bad = W::copy(&ct_all);
+                    let last = bad.0.len() - 1;
+                    bad.0[last] ^= 1;
+                    let (ct, tag) = bad.split_at(tag_pos);
+                    let mut dec = NOBUF;
+                    let c = tracked(|| unsafe { askar_key_aead_decrypt(k, bb(ct), bb(&nonce), bb(tag), bb(aad), &mut dec) });
+                    run.settle("aead_decrypt_bad");
+                    if run.code("aead_decrypt_bad", c, false) {
+                        run.release("plaintext-of-forgery", dec, None);
+                    }
+                }
+            }
+            ffi_key_free(&mut run, "key_free", k);
+        }
+        "wrap" => {
+            // arg: algorithm of the wrapping key; the wrapped key is an Ed25519 / A256GCM key with known bytes
+            let s = W::copy(&key_secret(seed, arg));
+            let inner_alg = if n % 2 == 0 { "a256gcm" } else { "ed25519" };
+            let inner = W::copy(&key_secret(seed ^ 0x77, inner_alg));
+            let mut nd = key_needles(&s);
+            nd.extend(key_needles(&inner));
+            needles_set(nd);
+            secrets.push(("key material".into(), s.to_vec()));
+            secrets.push(("wrapped key material".into(), inner.to_vec()));
+            let k = ffi_key(&mut run, "from_secret_bytes", arg, &s);
+            let other = ffi_key(&mut run, "from_secret_bytes:inner", inner_alg, &inner);
+            let nonce_len = match arg { "xc20p" => 24, "a128kw" | "a256kw" => 0, "a128cbchs256" | "a256cbchs512" => 16, _ => 12 };
+            let nonce = W::copy(&secret_bytes(seed, "nonce", nonce_len));
+            let mut enc = NOENC;
+            let c = tracked(|| unsafe { askar_key_wrap_key(k, other, bb(&nonce), &mut enc) });
+            run.settle("wrap_key");
+            if run.code("wrap_key", c, true) {
+                let full = run.release("wrapped", enc.buffer, None);
+                let nonce_pos = (enc.nonce_pos.max(0) as usize).min(full.len());
+                let tag_pos = (enc.tag_pos.max(0) as usize).min(nonce_pos);
+                let ct_all = W::copy(&full[..nonce_pos]);
+                let (ct, tag) = ct_all.split_at(tag_pos);
+                let ia = CS::new(inner_alg);
+                let mut un = NOKEY;
+                let c = tracked(|| unsafe { askar_key_unwrap_key(k, ia.p(), bb(ct), bb(&nonce), bb(tag), &mut un) });
+                run.settle("unwrap_key");
+                if run.code("unwrap_key", c, true) {
+                    let mut b = NOBUF;
+                    let c = tracked(|| unsafe { askar_key_get_secret_bytes(un, &mut b) });
+                    run.settle("get_secret_bytes");
+                    if run.code("get_secret_bytes", c, true) {
+                        run.release("unwrapped-secret", b, Some(&inner));
+                    }
+                    ffi_key_free(&mut run, "key_free:unwrapped", un);
+                }
+                // unwrapping with the wrong algorithm length / a damaged ciphertext: error JSON, no key
+                if !ct_all.is_empty() {
+                    let mut bad = W::copy(&ct_all);
+                    bad.0[0] ^= 1;
+                    let (ct, tag) = bad.split_at(tag_pos);
+                    let mut un = NOKEY;
+                    let c = tracked(|| unsafe { askar_key_unwrap_key(k, ia.p(), bb(ct), bb(&nonce), bb(tag), &mut un) });
+                    run.settle("unwrap_key_bad");
+                    if run.code("unwrap_key_bad", c, false) {
+                        ffi_key_free(&mut run, "key_free:forged", un);
+                    }
+                }
+            }
+            ffi_key_free(&mut run, "key_free:inner", other);
+            ffi_key_free(&mut run, "key_free", k);
+        }
+        "kex" => {
+            // arg: curve; ECDH of two keys with known scalars, the derived A256GCM key is read back as bytes
+            let s1 = W::copy(&key_secret(seed, arg));
+            let s2 = W::copy(&key_secret(seed ^ 0x99, arg));
+            let mut nd = key_needles(&s1);
+            nd.extend(key_needles(&s2));
+            needles_set(nd.clone());
+            secrets.push(("key material".into(), s1.to_vec()));
+            secrets.push(("key material".into(), s2.to_vec()));
+            let k1 = ffi_key(&mut run, "from_secret_bytes", arg, &s1);
+            let k2 = ffi_key(&mut run, "from_secret_bytes:peer", arg, &s2);
+            let a = CS::new("a256gcm");
+            let (mut d1, mut d2) = (NOKEY, NOKEY);
+            let c = tracked(|| unsafe { askar_key_from_key_exchange(a.p(), k1, k2, &mut d1) });
+            run.settle("from_key_exchange");
+            // (a P-384 shared secret has 48 bytes and does not fit the 32-byte key: "Exceeded buffer size" — an error JSON to look at)
+            let fits = arg != "p384";
+            let ok1 = run.code("from_key_exchange", c, fits);
+            let c = tracked(|| unsafe { askar_key_from_key_exchange(a.p(), k2, k1, &mut d2) });
+            run.settle("from_key_exchange:peer");
+            let ok2 = run.code("from_key_exchange:peer", c, fits);
+            if ok1 && ok2 {
+                let mut b = NOBUF;
+                let c = tracked(|| unsafe { askar_key_get_secret_bytes(d1, &mut b) });
+                run.settle("get_secret_bytes");
+                if run.code("get_secret_bytes", c, true) {
+                    // the shared secret is not known beforehand: from here on it is a needle too
+                    let shared = if b.len > 0 && !b.data.is_null() { W::copy(unsafe { std::slice::from_raw_parts(b.data, b.len as usize) }) } else { W(vec![]) };
+                    if shared.len() >= 16 {
+                        nd.extend(key_needles(&shared));
+                        needles_set(nd);
+                    }
+                    run.release("shared-secret", b, None);
+                    let mut b2 = NOBUF;
+                    let c = tracked(|| unsafe { askar_key_get_secret_bytes(d2, &mut b2) });
+                    run.settle("get_secret_bytes:peer");
+                    if run.code("get_secret_bytes:peer", c, true) {
+                        run.release("shared-secret:peer", b2, Some(&shared));
+                    }
+                }
+            }
+            ffi_key_free(&mut run, "key_free:derived", d1);
+            ffi_key_free(&mut run, "key_free:derived-peer", d2);
+            ffi_key_free(&mut run, "key_free:peer", k2);
+            ffi_key_free(&mut run, "key_free", k1);
+        }
+        "seal" => {
+            // crypto_box_seal / seal_open with an X25519 key: the opened plaintext is a SecretBuffer
+            let s = W::copy(&key_secret(seed, "x25519"));
+            let mut nd = key_needles(&s);
+            if n >= 16 {
+                nd.push(msg[..16].to_vec());
+            }
+            needles_set(nd);
+            secrets.push(("key material".into(), s.to_vec()));
+            secrets.push(("plaintext".into(), msg.to_vec()));
+            let k = ffi_key(&mut run, "from_secret_bytes", "x25519", &s);
+            let mut sealed = NOBUF;
+            let c = tracked(|| unsafe { askar_key_crypto_box_seal(k, bb(&msg), &mut sealed) });
+            run.settle("crypto_box_seal");
+            if run.code("crypto_box_seal", c, true) {
+                let ct = run.release("sealed", sealed, None);
+                let mut opened = NOBUF;
+                let c = tracked(|| unsafe { askar_key_crypto_box_seal_open(k, bb(&ct), &mut opened) });
+                run.settle("crypto_box_seal_open");
+                if run.code("crypto_box_seal_open", c, true) {
+                    run.release("opened", opened, Some(&msg));
+                }
+            }
+            ffi_key_free(&mut run, "key_free", k);
+        }
+        "entry_value" => {
+            // a record value of n pattern bytes, stored and fetched through the C API; `askar_entry_list_get_value` copies it into a
+            // SecretBuffer (n = 0: `data` dangling, `len` 0); the list's own copy is released by `askar_entry_list_free`
+            if n >= 16 {
+                needles_set(vec![msg[..16].to_vec(), msg[n - 16..].to_vec()]);
+            } else {
+                needles_set(vec![]);
+            }
+            secrets.push(("record value".into(), msg.to_vec()));
+            let raw = b58(&secret_bytes(seed, "ffi-raw", 32));
+            let (uri, method, pass, cat, name) = (CS::new("sqlite://:memory:"), CS::new("raw"), CS::new(&raw), CS::new("cat"), CS::new("name"));
+            let id = new_cb_id();
+            let c = unsafe { askar_store_provision(uri.p(), method.p(), pass.p(), std::ptr::null(), 1, Some(cb_handle), id) };
+            if let Some(st) = ffi_wait(&mut run, "store_provision", c, id) {
+                let st = H(st.1);
+                let id = new_cb_id();
+                let c = unsafe { askar_session_start(st, std::ptr::null(), 0, Some(cb_handle), id) };
+                if let Some(se) = ffi_wait(&mut run, "session_start", c, id) {
+                    let se = H(se.1);
+                    let id = new_cb_id();
+                    let c = unsafe { askar_session_update(se, 0, cat.p(), name.p(), bb(&msg), std::ptr::null(), -1, Some(cb_unit), id) };
+                    ffi_wait(&mut run, "session_update", c, id);
+                    let id = new_cb_id();
+                    let c = unsafe { askar_session_fetch(se, cat.p(), name.p(), 0, Some(cb_ptr), id) };
+                    if let Some(l) = ffi_wait(&mut run, "session_fetch", c, id) {
+                        let l = P(l.1 as *const u8);
+                        if l.0.is_null() {
+                            run.oracle.push(json!({"sig": format!("ffi:{}:session_fetch:no-row", sub)}));
+                        } else {
+                            for round in 0..2 {
+                                let mut b = NOBUF;
+                                let c = tracked(|| unsafe { askar_entry_list_get_value(l, 0, &mut b) });
+                                run.settle("entry_list_get_value");
+                                if run.code("entry_list_get_value", c, true) {
+                                    run.release(if round == 0 { "value" } else { "value-again" }, b, Some(&msg));
+                                }
+                            }
+                            // index out of range: an error, its JSON, and no buffer
+                            let mut b = NOBUF;
+                            let c = tracked(|| unsafe { askar_entry_list_get_value(l, 1, &mut b) });
+                            run.settle("entry_list_get_value:out-of-range");
+                            if run.code("entry_list_get_value:out-of-range", c, false) {
+                                run.release("value-out-of-range", b, None);
+                            }
+                            tracked(|| unsafe { askar_entry_list_free(l) });
+                            run.settle("entry_list_free");
+                        }
+                    }
+                    let id = new_cb_id();
+                    let c = unsafe { askar_session_close(se, 1, Some(cb_unit), id) };
+                    ffi_wait(&mut run, "session_close", c, id);
+                }
+                let id = new_cb_id();
+                let c = unsafe { askar_store_close(st, Some(cb_unit), id) };
+                ffi_wait(&mut run, "store_close", c, id);
+            }
+        }
+        "null" => {
+            // `askar_buffer_free` of the default buffer (NULL, 0) and of an empty exported buffer: nothing is released
+            needles_set(vec![]);
+            run.release("null", NOBUF, Some(b""));
+        }
+        "foreign" => {
+            // a block of exactly n bytes in the shape `from_secret` produces (len = capacity), filled with the pattern by the
+            // caller (a C caller may write into `data`): released whole and wiped whatever it holds
+            needles_set(if n >= 16 { vec![msg[..16].to_vec()] } else { vec![] });
+            let mut v: Vec<u8> = Vec::with_capacity(n);
+            v.extend_from_slice(&msg);
+            let mut v = std::mem::ManuallyDrop::new(v);
+            let b = SecretBuf { len: n as i64, data: if n == 0 { std::ptr::NonNull::<u8>::dangling().as_ptr() } else { v.as_mut_ptr() } };
+            run.release("foreign", b, Some(&msg));
+        }
+        _ => {
+            run.oracle.push(json!({"sig": format!("ffi:{}:unknown-subject", sub)}));
+        }
+    }
+    set_tracking(false);
+    needles_set(vec![]);
+    // error TEXT of the C API: the JSON of every failing call, searched for every secret of the case
+    let mut leak = false;
+    for t in &run.texts {
+        for (label, sec) in &secrets {
+            let enc = find_secret(t, sec);
+            if !enc.is_empty() {
+                leak = true;
+                let sig = format!("ffi:{}:error-json-holds-secret:{}", sub, label.replace(' ', "-"));
+                if !run.oracle.iter().any(|o| o["sig"] == sig) {
+                    run.oracle.push(json!({"sig": sig, "encodings": enc, "text": t.chars().take(400).collect::<String>()}));
+                }
+            }
+        }
+    }
+    let lens: Vec<Value> = run.bufs.iter().map(|b| b["len"].clone()).collect();
+    run.feat.insert("ffi-buffers".into(), json!(run.bufs.len()));
+    json!({"out": {"bufs": run.bufs, "dirty_release": run.dirty > 0, "error_json_leak": leak},
+           "oracle": run.oracle, "feat": run.feat, "model_input": {"lens": lens}, "diag": {"whats": run.whats, "errors": run.texts}})
+}
+
+// =================================================================================================
+// Part B through the C API: c20:ffilog — the log campaign with the C API's own logger (`src/ffi/log.rs`).
+// `askar_set_custom_logger` installs once per process, so every case runs in a child process (`askar_harness exec` on a
+// `c20:ffilog-child` case); the records arrive through the C callback: message / target / module_path / file are all searched.
+
+static FFI_RECORDS: Mutex<Vec<[String; 4]>> = Mutex::new(Vec::new());
+
+extern "C" fn ffilog_cb(_ctx: *const std::os::raw::c_void, _level: i32, target: *const std::os::raw::c_char, message: *const std::os::raw::c_char,
+                        module_path: *const std::os::raw::c_char, file: *const std::os::raw::c_char, _line: i32) {
+    let s = |p: *const std::os::raw::c_char| if p.is_null() { String::new() } else { unsafe { std::ffi::CStr::from_ptr(p) }.to_string_lossy().to_string() };
+    let rec = [s(message), s(target), s(module_path), s(file)];
+    if let Ok(mut r) = FFI_RECORDS.lock() {
+        r.push(rec);
+    }
+}
+
+struct LogRun {
+    steps: Vec<(String, bool)>,
+    texts: Vec<String>, // error JSON of failing calls
+}
+
+impl LogRun {
+    /// waits for the callback of an asynchronous call; a failure (return code or callback code) is looked up as JSON
+    fn wait(&mut self, step: &str, c: capi::Code, id: i64) -> Option<capi::CbVal> {
+        if c != 0 {
+            self.texts.push(format!("{} -> {} {}", step, capi::code_name(c), capi::current_error()));
+            return None;
+        }
+        match capi::wait_cb(id) {
+            Some(v) if v.0 == 0 => Some(v),
+            Some(v) => {
+                self.texts.push(format!("{} -> {} {}", step, capi::code_name(v.0), capi::current_error()));
+                None
+            }
+            None => {
+                self.texts.push(format!("{} -> no callback", step));
+                None
+            }
+        }
+    }
+    fn sync(&mut self, step: &str, c: capi::Code) -> bool {
+        if c != 0 {
+            self.texts.push(format!("{} -> {} {}", step, capi::code_name(c), capi::current_error()));
+        }
+        c == 0
+    }
+    fn step(&mut self, name: &str, ok: bool) {
+        self.steps.push((name.to_string(), ok));
+    }
+}
+
+fn ffilog_entry_list(run: &mut LogRun, l: usize) -> usize {
+    use capi::*;
+    let l = P(l as *const u8);
+    if l.0.is_null() {
+        return 0;
+    }
+    let mut n = 0i32;
+    unsafe { askar_entry_list_count(l, &mut n) };
+    for i in 0..n {
+        let mut b = NOBUF;
+        if run.sync("entry_list_get_value", unsafe { askar_entry_list_get_value(l, i, &mut b) }) {
+            unsafe { askar_buffer_free(b) };
+        }
+        let mut s: *const std::os::raw::c_char = std::ptr::null();
+        if run.sync("entry_list_get_tags", unsafe { askar_entry_list_get_tags(l, i, &mut s) }) {
+            take_str(s);
+        }
+        let mut s: *const std::os::raw::c_char = std::ptr::null();
+        if run.sync("entry_list_get_name", unsafe { askar_entry_list_get_name(l, i, &mut s) }) {
+            take_str(s);
+        }
+    }
+    unsafe { askar_entry_list_free(l) };
+    n as usize
+}
+
+/// runs in the child process: installs the custom logger at Trace, walks the campaign through the C API, searches the records
+pub fn exec_ffilog_child(case: &Value, tag: &str) -> Value {
+    use capi::*;
+    let scenario = case["scenario"].as_str().unwrap_or("");
+    let seed = case["seed"].as_u64().unwrap_or(0);
+    let mut feat = Map::new();
+    feat_inc(&mut feat, &format!("ffilog:{}", scenario.split(':').next().unwrap_or("")));
+    let rc = unsafe { askar_set_custom_logger(std::ptr::null(), ffilog_cb, None, None, 5) };
+    if rc != 0 {
+        return json!({"out": {"err": "logger"}, "oracle": [{"sig": "c20:ffi-logger-not-installed", "code": code_name(rc)}], "feat": feat});
+    }
+    let mut secrets: Vec<(String, Vec<u8>)> = vec![];
+    let mut run = LogRun { steps: vec![], texts: vec![] };
+    let (head, arg) = scenario.split_once(':').unwrap_or((scenario, ""));
+    match head {
+        "lifecycle" => {
+            let path = scratch(&format!("ffilog-{}-{}", tag, seed));
+            rm_db(&path);
+            let uri_s = format!("sqlite://{}", path);
+            let pass1 = secret_word(seed, "pass1", 26);
+            let raw1 = b58(&secret_bytes(seed, "raw1", 32));
+            let raw2 = b58(&secret_bytes(seed, "raw2", 32));
+            let wrong = secret_word(seed, "wrong", 26);
+            let cat_s = format!("cat-{}", secret_word(seed, "cat", 16));
+            let name_s = format!("name-{}", secret_word(seed, "name", 16));
+            let value = secret_bytes(seed, "value", 48);
+            let value2 = secret_word(seed, "value2", 40);
+            let tn = format!("tn-{}", secret_word(seed, "tagname", 14));
+            let tv = format!("tv-{}", secret_word(seed, "tagvalue", 14));
+            let ptn = format!("ptn-{}", secret_word(seed, "ptagname", 14));
+            let ptv = format!("ptv-{}", secret_word(seed, "ptagvalue", 14));
+            let keysec = key_secret(seed, "ed25519");
+            let keysec2 = key_secret(seed, "a256gcm");
+            let profile2 = format!("prof-{}", secret_word(seed, "profile", 10));
+            for (l, s) in [("pass key", pass1.as_bytes()), ("raw store key (text)", raw1.as_bytes()), ("new raw store key (text)", raw2.as_bytes()), ("wrong pass key", wrong.as_bytes()),
+                           ("record category", cat_s.as_bytes()), ("record name", name_s.as_bytes()), ("record value", &value[..]), ("record value (text)", value2.as_bytes()),
+                           ("tag name", tn.as_bytes()), ("tag value", tv.as_bytes()), ("plaintext tag value", ptv.as_bytes()),
+                           ("key material", &keysec[..]), ("key material", &keysec2[..])] {
+                secrets.push((l.to_string(), s.to_vec()));
+            }
+            secrets.push(("raw store key".into(), secret_bytes(seed, "raw1", 32)));
+            secrets.push(("new raw store key".into(), secret_bytes(seed, "raw2", 32)));
+            let (method_s, pass_s) = if arg == "argon" { ("kdf:argon2i:int", pass1.clone()) } else { ("raw", raw1.clone()) };
+            let (uri, method, pass, first, prof2) = (CS::new(&uri_s), CS::new(method_s), CS::new(&pass_s), CS::new("first"), CS::new(&profile2));
+            let (cat, name, other, absent) = (CS::new(&cat_s), CS::new(&name_s), CS::new("other"), CS::new("absent"));
+            let tags = CS::new(&json!({tn.clone(): tv.clone(), format!("~{}", ptn): ptv.clone()}).to_string());
+            let filt = CS::new(&json!({"$and": [{tn.clone(): tv.clone()}, {format!("~{}", ptn): {"$like": format!("{}%", &ptv[..6])}}]}).to_string());
+            let id = new_cb_id();
+            let c = unsafe { askar_store_provision(uri.p(), method.p(), pass.p(), first.p(), 1, Some(cb_handle), id) };
+            let st = run.wait("store_provision", c, id);
+            run.step("provision", st.is_some());
+            if let Some(st) = st {
+                let st = H(st.1);
+                let id = new_cb_id();
+                let c = unsafe { askar_store_create_profile(st, prof2.p(), Some(cb_str), id) };
+                run.wait("store_create_profile", c, id);
+                let id = new_cb_id();
+                let c = unsafe { askar_session_start(st, std::ptr::null(), 0, Some(cb_handle), id) };
+                if let Some(se) = run.wait("session_start", c, id) {
+                    let se = H(se.1);
+                    let upd = |run: &mut LogRun, step: &str, op: i8, nm: &CS, val: &[u8], tg: &CS, exp: i64| -> bool {
+                        let id = new_cb_id();
+                        let c = unsafe { askar_session_update(se, op, cat.p(), nm.p(), bb(val), tg.p(), exp, Some(cb_unit), id) };
+                        run.wait(step, c, id).is_some()
+                    };
+                    let a = upd(&mut run, "session_update:insert", 0, &name, &value, &tags, -1);
+                    let b = upd(&mut run, "session_update:insert", 0, &other, value2.as_bytes(), &tags, 100000);
+                    run.step("insert", a && b);
+                    let dup = upd(&mut run, "session_update:insert-duplicate", 0, &name, &value, &CS::null(), -1);
+                    run.step("insert-duplicate", dup);
+                    let id = new_cb_id();
+                    let c = unsafe { askar_session_fetch(se, cat.p(), name.p(), 0, Some(cb_ptr), id) };
+                    let got = run.wait("session_fetch", c, id).map_or(0, |l| ffilog_entry_list(&mut run, l.1));
+                    run.texts.push(format!("DEBUG fetch got {}", got));
+                    run.step("fetch", got == 1);
+                    let id = new_cb_id();
+                    let c = unsafe { askar_session_fetch_all(se, cat.p(), filt.p(), -1, std::ptr::null(), 0, 0, Some(cb_ptr), id) };
+                    let got = run.wait("session_fetch_all", c, id).map_or(0, |l| ffilog_entry_list(&mut run, l.1));
+                    run.step("fetch_all", got == 2);
+                    let id = new_cb_id();
+                    let c = unsafe { askar_session_count(se, cat.p(), filt.p(), Some(cb_i64), id) };
+                    let cnt = run.wait("session_count", c, id).map_or(0, |v| v.1);
+                    run.step("count", cnt == 2);
+                    upd(&mut run, "session_update:replace", 1, &name, value2.as_bytes(), &tags, -1);
+                    let miss = upd(&mut run, "session_update:replace-missing", 1, &absent, &value, &CS::null(), -1);
+                    run.step("replace-missing", miss);
+                    // keys
+                    let (ed, gcm, k1n, k2n, meta) = (CS::new("ed25519"), CS::new("a256gcm"), CS::new("key-one"), CS::new("key-two"), CS::new("meta"));
+                    let (mut k1, mut k2) = (NOKEY, NOKEY);
+                    run.sync("key_from_secret_bytes", unsafe { askar_key_from_secret_bytes(ed.p(), bb(&keysec), &mut k1) });
+                    run.sync("key_from_secret_bytes", unsafe { askar_key_from_secret_bytes(gcm.p(), bb(&keysec2), &mut k2) });
+                    let id = new_cb_id();
+                    let c = unsafe { askar_session_insert_key(se, k1, k1n.p(), meta.p(), tags.p(), -1, Some(cb_unit), id) };
+                    run.wait("session_insert_key", c, id);
+                    let id = new_cb_id();
+                    let c = unsafe { askar_session_insert_key(se, k2, k2n.p(), std::ptr::null(), std::ptr::null(), -1, Some(cb_unit), id) };
+                    run.wait("session_insert_key", c, id);
+                    let id = new_cb_id();
+                    let c = unsafe { askar_session_fetch_key(se, k1n.p(), 0, Some(cb_ptr), id) };
+                    let mut key_ok = false;
+                    if let Some(l) = run.wait("session_fetch_key", c, id) {
+                        let l = P(l.1 as *const u8);
+                        if !l.0.is_null() {
+                            let mut lk = NOKEY;
+                            if run.sync("key_entry_list_load_local", unsafe { askar_key_entry_list_load_local(l, 0, &mut lk) }) {
+                                let mut sig = NOBUF;
+                                if run.sync("key_sign_message", unsafe { askar_key_sign_message(lk, bb(b"msg"), std::ptr::null(), &mut sig) }) {
+                                    key_ok = sig.len == 64;
+                                    unsafe { askar_buffer_free(sig) };
+                                }
+                                // secret exports through the C API: the calls are logged (handle only), the results are not
+                                let mut b = NOBUF;
+                                if run.sync("key_get_secret_bytes", unsafe { askar_key_get_secret_bytes(lk, &mut b) }) {
+                                    unsafe { askar_buffer_free(b) };
+                                }
+                                let mut b = NOBUF;
+                                if run.sync("key_get_jwk_secret", unsafe { askar_key_get_jwk_secret(lk, &mut b) }) {
+                                    unsafe { askar_buffer_free(b) };
+                                }
+                                unsafe { askar_key_free(lk) };
+                            }
+                            unsafe { askar_key_entry_list_free(l) };
+                        }
+                    }
+                    run.step("key-ops", key_ok);
+                    // AEAD through the C API, and a failing decryption
+                    let nonce = [1u8; 12];
+                    let mut enc = NOENC;
+                    if run.sync("key_aead_encrypt", unsafe { askar_key_aead_encrypt(k2, bb(&value), bb(&nonce), bb(b""), &mut enc) }) {
+                        let all = unsafe { std::slice::from_raw_parts(enc.buffer.data, enc.nonce_pos as usize) }.to_vec();
+                        unsafe { askar_buffer_free(enc.buffer) };
+                        let (ct, tg) = all.split_at(enc.tag_pos as usize);
+                        let mut dec = NOBUF;
+                        if run.sync("key_aead_decrypt", unsafe { askar_key_aead_decrypt(k2, bb(ct), bb(&nonce), bb(tg), bb(b""), &mut dec) }) {
+                            unsafe { askar_buffer_free(dec) };
+                        }
+                        let mut dec = NOBUF;
+                        let bad = run.sync("key_aead_decrypt:wrong-aad", unsafe { askar_key_aead_decrypt(k2, bb(ct), bb(&nonce), bb(tg), bb(b"x"), &mut dec) });
+                        run.step("aead-wrong-aad", bad);
+                    }
+                    // failing key imports carrying key material
+                    let mut bad = NOKEY;
+                    let r = run.sync("key_from_secret_bytes:short", unsafe { askar_key_from_secret_bytes(ed.p(), bb(&keysec[..31]), &mut bad) });
+                    run.step("key-import-short", r);
+                    let jwk = format!("{{\"kty\":\"OKP\",\"crv\":\"Ed25519\",\"x\":\"AA\",\"d\":\"{}\"", b64(&keysec, true));
+                    let r = run.sync("key_from_jwk:truncated", unsafe { askar_key_from_jwk(bb(jwk.as_bytes()), &mut bad) });
+                    run.step("key-import-truncated-jwk", r);
+                    let jwk = format!("{{\"kty\":\"OKP\",\"crv\":\"Ed25519\",\"x\":\"{}\",\"d\":\"{}\"}}", b64(&[7u8; 32], true), b64(&keysec, true));
+                    let r = run.sync("key_from_jwk:mismatch", unsafe { askar_key_from_jwk(bb(jwk.as_bytes()), &mut bad) });
+                    run.step("key-import-mismatched-jwk", r);
+                    let id = new_cb_id();
+                    let c = unsafe { askar_session_fetch_all_keys(se, ed.p(), std::ptr::null(), std::ptr::null(), -1, 0, Some(cb_ptr), id) };
+                    let mut nkeys = 0i32;
+                    if let Some(l) = run.wait("session_fetch_all_keys", c, id) {
+                        let l = P(l.1 as *const u8);
+                        if !l.0.is_null() {
+                            unsafe { askar_key_entry_list_count(l, &mut nkeys) };
+                            unsafe { askar_key_entry_list_free(l) };
+                        }
+                    }
+                    run.step("fetch_all_keys", nkeys == 1);
+                    let id = new_cb_id();
+                    let c = unsafe { askar_session_remove_key(se, k2n.p(), Some(cb_unit), id) };
+                    run.wait("session_remove_key", c, id);
+                    unsafe { askar_key_free(k1) };
+                    unsafe { askar_key_free(k2) };
+                    let id = new_cb_id();
+                    let c = unsafe { askar_session_close(se, 1, Some(cb_unit), id) };
+                    run.wait("session_close", c, id);
+                }
+                // a transaction rolled back
+                let id = new_cb_id();
+                let c = unsafe { askar_session_start(st, std::ptr::null(), 1, Some(cb_handle), id) };
+                if let Some(tx) = run.wait("session_start:txn", c, id) {
+                    let tx = H(tx.1);
+                    let intxn = CS::new("in-txn");
+                    let id = new_cb_id();
+                    let c = unsafe { askar_session_update(tx, 0, cat.p(), intxn.p(), bb(&value), tags.p(), -1, Some(cb_unit), id) };
+                    run.wait("session_update:txn", c, id);
+                    let id = new_cb_id();
+                    let c = unsafe { askar_session_close(tx, 0, Some(cb_unit), id) };
+                    run.wait("session_close:rollback", c, id);
+                }
+                // scan
+                let id = new_cb_id();
+                let c = unsafe { askar_scan_start(st, std::ptr::null(), cat.p(), filt.p(), -1, -1, std::ptr::null(), 0, Some(cb_handle), id) };
+                let mut seen = 0usize;
+                if let Some(sc) = run.wait("scan_start", c, id) {
+                    let sc = H(sc.1);
+                    loop {
+                        let id = new_cb_id();
+                        let c = unsafe { askar_scan_next(sc, Some(cb_ptr), id) };
+                        match run.wait("scan_next", c, id) {
+                            Some(l) if l.1 != 0 => seen += ffilog_entry_list(&mut run, l.1),
+                            _ => break,
+                        }
+                    }
+                    unsafe { askar_scan_free(sc) };
+                }
+                run.step("scan", seen == 2);
+                let id = new_cb_id();
+                let c = unsafe { askar_session_start(st, std::ptr::null(), 0, Some(cb_handle), id) };
+                if let Some(se) = run.wait("session_start", c, id) {
+                    let se = H(se.1);
+                    let id = new_cb_id();
+                    let c = unsafe { askar_session_update(se, 2, cat.p(), other.p(), bb(b""), std::ptr::null(), -1, Some(cb_unit), id) };
+                    run.wait("session_update:remove", c, id);
+                    let id = new_cb_id();
+                    let c = unsafe { askar_session_remove_all(se, cat.p(), std::ptr::null(), Some(cb_i64), id) };
+                    let n = run.wait("session_remove_all", c, id).map_or(99, |v| v.1);
+                    run.step("remove_all", n == 1);
+                    let id = new_cb_id();
+                    let c = unsafe { askar_session_close(se, 1, Some(cb_unit), id) };
+                    run.wait("session_close", c, id);
+                }
+                let (rawm, raw2c) = (CS::new("raw"), CS::new(&raw2));
+                let id = new_cb_id();
+                let c = unsafe { askar_store_rekey(st, rawm.p(), raw2c.p(), Some(cb_unit), id) };
+                let rk = run.wait("store_rekey", c, id).is_some();
+                run.step("rekey", rk);
+                let id = new_cb_id();
+                let c = unsafe { askar_store_close(st, Some(cb_unit), id) };
+                run.wait("store_close", c, id);
+                let id = new_cb_id();
+                let c = unsafe { askar_store_open(uri.p(), rawm.p(), raw2c.p(), prof2.p(), Some(cb_handle), id) };
+                let st2 = run.wait("store_open", c, id);
+                run.step("open", st2.is_some());
+                if let Some(st2) = st2 {
+                    let id = new_cb_id();
+                    let c = unsafe { askar_store_close(H(st2.1), Some(cb_unit), id) };
+                    run.wait("store_close", c, id);
+                }
+                let id = new_cb_id();
+                let c = unsafe { askar_store_open(uri.p(), method.p(), pass.p(), std::ptr::null(), Some(cb_handle), id) };
+                let r = run.wait("store_open:old-key", c, id).is_some();
+                run.step("open-old-key", r);
+                let wrongc = CS::new(&wrong);
+                let id = new_cb_id();
+                let c = unsafe { askar_store_open(uri.p(), std::ptr::null(), wrongc.p(), std::ptr::null(), Some(cb_handle), id) };
+                let r = run.wait("store_open:wrong-pass", c, id).is_some();
+                run.step("open-wrong-pass", r);
+                let missing = CS::new(&format!("{}-missing", uri_s));
+                let id = new_cb_id();
+                let c = unsafe { askar_store_open(missing.p(), std::ptr::null(), wrongc.p(), std::ptr::null(), Some(cb_handle), id) };
+                let r = run.wait("store_open:missing", c, id).is_some();
+                run.step("open-missing", r);
+                let id = new_cb_id();
+                let c = unsafe { askar_store_remove(uri.p(), Some(cb_i8), id) };
+                let r = run.wait("store_remove", c, id).map_or(false, |v| v.1 == 1);
+                run.step("remove", r);
+            }
+            rm_db(&path);
+        }
+        "uri" => {
+            // every entry point x every credential-carrying URI that cannot connect, in one process
+            let pw = format!("pw-{}", secret_word(seed, "uripw", 18));
+            let pw_special = format!("p@s/{}", secret_word(seed, "uripw2", 14));
+            let apw = format!("apw-{}", secret_word(seed, "adminpw", 18));
+            let apw_special = special_word(seed, "adminpw2");
+            let raw = b58(&secret_bytes(seed, "raw", 32));
+            secrets.push(("uri password".into(), pw.clone().into_bytes()));
+            secrets.push(("uri password (percent-decoded)".into(), pw_special.clone().into_bytes()));
+            secrets.push(("uri admin_password".into(), apw.clone().into_bytes()));
+            secrets.push(("uri admin_password (percent-decoded)".into(), apw_special.clone().into_bytes()));
+            secrets.push(("raw store key (text)".into(), raw.clone().into_bytes()));
+            let (rawm, rawc) = (CS::new("raw"), CS::new(&raw));
+            for which in ["postgres", "postgres-encoded", "postgres-query-encoded", "sqlite-query-encoded", "unknown-scheme", "sqlite", "bad-percent"] {
+                let uri_s = match which {
+                    "postgres-query-encoded" => format!("postgres://user:{}@127.0.0.1:1/db?connect_timeout=1&admin_account=adm&admin_password={}", pw, pct(&apw_special)),
+                    "sqlite-query-encoded" => format!("sqlite://user:{}@/nonexistent-dir-c20/x.db?admin_password={}&busy_timeout=1", pw, pct(&apw_special)),
+                    "postgres" => format!("postgres://user:{}@127.0.0.1:1/db?connect_timeout=1&admin_account=adm&admin_password={}", pw, apw),
+                    "postgres-encoded" => format!("postgres://user:{}@127.0.0.1:1/db?connect_timeout=1", pct(&pw_special)),
+                    "unknown-scheme" => format!("mysql://user:{}@db.example/db", pw),
+                    "bad-percent" => format!("sqlite://user:{}@/nonexistent-dir-c20/x.db?admin_password={}%zz&x=%e9", pw, apw),
+                    _ => format!("sqlite://user:{}@/nonexistent-dir-c20/x.db", pw),
+                };
+                let uri = CS::new(&uri_s);
+                for entry in ["open", "provision", "remove"] {
+                    let id = new_cb_id();
+                    let ok = match entry {
+                        "open" => {
+                            let c = unsafe { askar_store_open(uri.p(), rawm.p(), rawc.p(), std::ptr::null(), Some(cb_handle), id) };
+                            run.wait(&format!("store_open:{}", which), c, id).is_some()
+                        }
+                        "provision" => {
+                            let c = unsafe { askar_store_provision(uri.p(), rawm.p(), rawc.p(), std::ptr::null(), 0, Some(cb_handle), id) };
+                            run.wait(&format!("store_provision:{}", which), c, id).is_some()
+                        }
+                        _ => {
+                            let c = unsafe { askar_store_remove(uri.p(), Some(cb_i8), id) };
+                            run.wait(&format!("store_remove:{}", which), c, id).is_some()
+                        }
+                    };
+                    run.step(&format!("{}-{}", entry, which), ok);
+                }
+            }
+        }
+        _ => return json!({"out": {"err": "setup", "msg": "unknown scenario"}, "oracle": [{"sig": format!("ffilog:{}:setup-failed", scenario)}], "feat": feat}),
+    }
+    let records: Vec<[String; 4]> = std::mem::take(&mut *FFI_RECORDS.lock().unwrap_or_else(|p| p.into_inner()));
+    feat.insert("log-records".into(), json!(records.len()));
+    feat.insert("ffi-error-json".into(), json!(run.texts.len()));
+    let mut with_module = 0u64;
+    let mut oracle: Vec<Value> = vec![];
+    let mut leak = false;
+    const FIELD: [&str; 4] = ["message", "target", "module_path", "file"];
+    for rec in &records {
+        if !rec[2].is_empty() && !rec[3].is_empty() {
+            with_module += 1;
+        }
+        for (fi, text) in rec.iter().enumerate() {
+            for (label, sec) in &secrets {
+                let enc = find_secret(text, sec);
+                if !enc.is_empty() {
+                    leak = true;
+                    let site = format!("{} {}", rec[1], rec[0].split(": ").next().unwrap_or("").chars().take(60).collect::<String>());
+                    let sig = format!("ffilog:{}:{}:{}:record-holds-secret", label.replace(' ', "-"), FIELD[fi], site);
+                    if !oracle.iter().any(|o| o["sig"] == sig) {
+                        oracle.push(json!({"sig": sig, "scenario": scenario, "secret": label, "encodings": enc, "record": text.chars().take(500).collect::<String>()}));
+                    }
+                }
+            }
+        }
+    }
+    feat.insert("records-with-module-and-file".into(), json!(with_module));
+    let mut json_leak = false;
+    for t in &run.texts {
+        for (label, sec) in &secrets {
+            let enc = find_secret(t, sec);
+            if !enc.is_empty() {
+                json_leak = true;
+                let sig = format!("ffilog:{}:error-json:{}:holds-secret", label.replace(' ', "-"), t.split(" -> ").next().unwrap_or(""));
+                if !oracle.iter().any(|o| o["sig"] == sig) {
+                    oracle.push(json!({"sig": sig, "scenario": scenario, "secret": label, "encodings": enc, "text": t.chars().take(500).collect::<String>()}));
+                }
+            }
+        }
+    }
+    std::fs::remove_dir(format!("{}/askar-verif-c20-{}", std::env::temp_dir().display(), std::process::id())).ok();
+    let steps_json: Vec<Value> = run.steps.iter().map(|(s, ok)| json!([s, ok])).collect();
+    json!({"out": {"leak": leak, "error_json_leak": json_leak, "steps": steps_json}, "oracle": oracle, "feat": feat, "diag": {"errors": run.texts}})
+}
+
+/// parent side: one child process per case
+fn exec_ffilog(case: &Value, _tag: &str) -> Value {
+    use std::io::Write;
+    use std::process::{Command, Stdio};
+    let mut child_case = case.clone();
+    child_case["kind"] = json!("c20:ffilog-child");
+    let exe = match std::env::current_exe() {
+        Ok(e) => e,
+        Err(e) => return json!({"out": {"err": "child"}, "oracle": [{"sig": "ffilog:child:no-current-exe", "msg": e.to_string()}]}),
+    };
+    let mut child = match Command::new(exe).args(["exec", "--threads", "1"]).stdin(Stdio::piped()).stdout(Stdio::piped()).stderr(Stdio::null()).spawn() {
+        Ok(c) => c,
+        Err(e) => return json!({"out": {"err": "child"}, "oracle": [{"sig": "ffilog:child:spawn-failed", "msg": e.to_string()}]}),
+    };
+    if let Some(mut sin) = child.stdin.take() {
+        writeln!(sin, "{}", child_case).ok();
+    }
+    let out = match child.wait_with_output() {
+        Ok(o) => o,
+        Err(e) => return json!({"out": {"err": "child"}, "oracle": [{"sig": "ffilog:child:wait-failed", "msg": e.to_string()}]}),
+    };
+    let text = String::from_utf8_lossy(&out.stdout);
+    match text.lines().find(|l| !l.trim().is_empty()).and_then(|l| serde_json::from_str::<Value>(l).ok()) {
+        Some(mut v) if out.status.success() => {
+            if let Some(o) = v.as_object_mut() {
+                o.remove("id");
+            }
+            v
+        }
+        _ => json!({"out": {"err": "child"}, "oracle": [{"sig": "ffilog:child:crashed-or-no-result", "status": format!("{:?}", out.status)}]}),
+    }
+}
+
+// =================================================================================================
 // generators
 
 const BOUNDS: [usize; 36] = [0, 1, 2, 7, 8, 9, 15, 16, 17, 31, 32, 33, 47, 48, 49, 63, 64, 65, 95, 96, 127, 128, 129, 255, 256, 257, 511, 512, 513, 1023, 1024, 1025, 2047, 2048, 4096, 4097];
@@ -1594,7 +2713,58 @@ pub fn gen(r: &mut Rng, thorough: bool, count: Option<usize>) -> Vec<Value> {
         }
         out.push(json!({"kind": "c20:log", "id": format!("log-{}", s), "scenario": s, "seed": r.next() >> 12}));
     }
+    // the C API: buffers under the allocator (c20:ffi), the C API's own logger in a child process (c20:ffilog)
+    for rep in 0..reps {
+        for (sub, n) in ffi_subjects(thorough) {
+            out.push(json!({"kind": "c20:ffi", "id": format!("ffi-{}-{}-{}", sub, n, rep), "sub": sub, "n": n, "seed": r.next() >> 12}));
+        }
+    }
+    for s in ["lifecycle:raw", "lifecycle:argon", "uri:all"] {
+        for j in if s == "uri:all" { vec![1u64, 3, 9] } else { vec![0u64] } {
+            out.push(json!({"kind": "c20:ffilog", "id": format!("ffilog-{}-{}", s, j), "scenario": s, "seed": (r.next() >> 12) / 10 * 10 + j}));
+        }
+    }
     out
+}
+
+/// (subject, message / value length) of the c20:ffi cases
+fn ffi_subjects(thorough: bool) -> Vec<(String, usize)> {
+    let mut v: Vec<(String, usize)> = vec![];
+    for (a, _) in ALGS.iter() {
+        v.push((format!("secret_bytes:{}", a), 0));
+        v.push((format!("jwk_secret:{}", a), 0));
+    }
+    for a in ["ed25519", "x25519", "p256", "bls12381g1g2", "a256gcm"] {
+        v.push((format!("public_bytes:{}", a), 0));
+    }
+    for a in ["ed25519", "k256", "p256", "p384", "x25519"] {
+        v.push((format!("sign:{}", a), 40));
+    }
+    let sizes: &[usize] = if thorough { &[0, 1, 15, 16, 17, 31, 32, 33, 63, 64, 65, 255, 256, 1024, 4097] } else { &[0, 1, 16, 33, 64, 4097] };
+    for a in ["a128gcm", "a256gcm", "a128cbchs256", "a256cbchs512", "c20p", "xc20p"] {
+        for &n in sizes {
+            v.push((format!("aead:{}", a), n));
+        }
+    }
+    for a in ["a128kw", "a256kw"] {
+        for &n in &[16usize, 24, 64] {
+            v.push((format!("aead:{}", a), n));
+        }
+    }
+    for a in ["a128gcm", "a256gcm", "a128cbchs256", "a256cbchs512", "c20p", "xc20p", "a128kw", "a256kw"] {
+        v.push((format!("wrap:{}", a), 0));
+        v.push((format!("wrap:{}", a), 1));
+    }
+    for a in ["x25519", "p256", "k256", "p384"] {
+        v.push((format!("kex:{}", a), 0));
+    }
+    for &n in sizes {
+        v.push(("seal:x25519".to_string(), n));
+        v.push(("entry_value:sqlite".to_string(), n));
+        v.push(("foreign:block".to_string(), n));
+    }
+    v.push(("null:default".to_string(), 0));
+    v
 }
 
 /// run one case against the real code; returns {"out": …, "oracle": […], "feat": {…}}
@@ -1604,6 +2774,9 @@ pub fn exec(case: &Value, tag: &str) -> Value {
         "c20:fmt" => exec_fmt(case, tag),
         "c20:log" => exec_log(case, tag),
         "c20:key" => exec_key(case),
+        "c20:ffi" => exec_ffi(case),
+        "c20:ffilog" => exec_ffilog(case, tag),
+        "c20:ffilog-child" => exec_ffilog_child(case, tag),
         k => json!({"out": {"err": format!("unknown kind {}", k)}}),
     }
 }
